@@ -5,7 +5,7 @@
    That is ac_reports_all_and_only, which holds for every image passing ac_cert - evaluated by
    checks/c05.py on the image of every COMBINED rule set. *)
 From Coq Require Import List NArith.
-From YV Require Import Base.Bytes Spec.TextSpec Model.Arena Model.Image Model.AC Model.TextAtoms Proofs.TextProofs Proofs.ACProofs.
+From YV Require Import Base.Bytes Spec.TextSpec Model.Arena Model.Image Model.AC Model.TextAtoms Model.Verify Proofs.TextProofs Proofs.ACProofs Proofs.VerifyProofs.
 Import ListNotations.
 
 (* occurrences of a string's atoms reach the verifier in ANY automaton that passes the certificate,
@@ -39,5 +39,16 @@ Proof.
   exists bt. exact (atom_hits_reach_verifier_proof cr sidx a bt buf o Hc Hb Hin He).
 Qed.
 Print Assumptions occurrences_verified_in_any_company.
+(* the offsets recorded for a text string by the scan model (stored automaton + literal verifier + match list, Model/Verify.v)
+   are the same in ANY two images that pass the certificates: whatever else was compiled with the string, in whatever order,
+   under whatever string index *)
+Theorem text_matches_independent_of_company : forall cr1 sidx1 fl1 cr2 sidx2 fl2 s m buf,
+  ac_cert cr1 = true -> ac_cert cr2 = true -> all_bytes buf = true ->
+  text_certs cr1 sidx1 fl1 s m = true -> complete_certs cr1 sidx1 fl1 s m = true ->
+  text_certs cr2 sidx2 fl2 s m = true -> complete_certs cr2 sidx2 fl2 s m = true ->
+  map fst (scan_string cr1 sidx1 fl1 s None buf) = map fst (scan_string cr2 sidx2 fl2 s None buf).
+Proof. exact scan_offsets_image_independent_proof. Qed.
+Print Assumptions text_matches_independent_of_company.
+
 (* not proved: independence of the lexer/parser level (splitting sources over files and includes) and of
    the condition bytecode; those are metamorphic runs in checks/c05.py. *)
